@@ -404,6 +404,12 @@ def run(prog, tier, seed):
     def _ltl0(prog):
         return c02.rule_ltl0(prog, c02.discover(prog))
 
+    def _ltl4(prog):
+        # the acceptance test of a tableau component must read the whole
+        # component: which of its atoms the SCC enumeration lists first
+        # depends on the iteration order of sets
+        return c02.rule_ltl4(prog, c02.discover(prog))
+
     def _ctl13(prog):
         entry, labeller, memo_ok, why = c01.discover_labeller(prog)
         try:
@@ -414,6 +420,7 @@ def run(prog, tier, seed):
             r1, table = e.partial
         return c01.rule_ctl3(prog, labeller, table, tier)
     dep = adopt(T.results(T(c19.rule_res5, prog), T(_ltl0, prog),
+                          T(_ltl4, prog),
                           T(_ctl13, prog), T(c12.rule_scc, prog),
                           T(c12.rule_scc6, prog)),
                 PROP, 'order / naming sensitive spot')
